@@ -63,7 +63,11 @@ func foreignExtendCase(c *core.Ctx, rules func(*opc.Package) []opc.Problem) *cor
 	pkgs, _ := savedPackages(res, s.Doc, c.WorkDir, fmt.Sprintf("f%d", c.Case))
 	note := "foreign features: " + strings.Join(f.Features, ",") + " ; ops: " + strings.Join(tail(s.Log, 25), " ")
 	for _, p := range pkgs {
-		addProblems(res, rules(p), note)
+		probs := rules(p)
+		for i := range probs {
+			probs[i].Key += "/opened-foreign" // the start state is part of the diagnosis
+		}
+		addProblems(res, probs, note)
 		statsOf(res, p)
 	}
 	res.Count("foreign_packages_opened", 1)
